@@ -42,6 +42,8 @@ pub fn build<M: GseDecapMemory>(sh: &Shape) -> (M, Ghost) {
 
 /// The free-list capacity is fixed at construction (slots + 2): in the state reached after
 /// the operation, one more buffer is accepted exactly when fewer than that are free.
+/// (Probed in the 1- and 2-slot shapes only: the capacity rule does not depend on the slot
+/// count beyond the "+ 2", and the 3-slot shapes are the expensive ones.)
 pub fn probe_capacity<M: GseDecapMemory>(m: &mut M, g: &mut Ghost, s: usize) {
     let (b, bg) = mk_buf(Z);
     match m.provision_storage(b) {
@@ -129,7 +131,7 @@ pub fn op_provision<M: GseDecapMemory>(sh: &Shape, small: bool) {
         }
         Err(_) => assert!(false, "C17.refused_buffer_handed_back"),
     }
-    if g.nfree <= 3 {
+    if g.nfree <= 3 && sh.s <= 2 {
         probe_capacity(&mut m, &mut g, sh.s);
     }
     drain_and_check(&mut m, &g, sh.s);
@@ -163,7 +165,7 @@ pub fn op_new_pdu<M: GseDecapMemory>(sh: &Shape) {
             kani::cover!(true, "underflow");
         }
     }
-    if g.nfree <= 3 {
+    if g.nfree <= 3 && sh.s <= 2 {
         probe_capacity(&mut m, &mut g, sh.s);
     }
     drain_and_check(&mut m, &g, sh.s);
@@ -197,7 +199,7 @@ pub fn op_take<M: GseDecapMemory>(sh: &Shape) {
         }
         Err(_) => assert!(false, "C17.take_error_kind"),
     }
-    if g.nfree <= 3 {
+    if g.nfree <= 3 && sh.s <= 2 {
         probe_capacity(&mut m, &mut g, sh.s);
     }
     drain_and_check_labelled(&mut m, &g, sh.s);
@@ -260,7 +262,7 @@ pub fn op_new_frag<M: GseDecapMemory>(sh: &Shape) {
             kani::cover!(true, "underflow");
         }
     }
-    if g.nfree <= 3 {
+    if g.nfree <= 3 && sh.s <= 2 {
         probe_capacity(&mut m, &mut g, sh.s);
     }
     drain_and_check(&mut m, &g, sh.s);
@@ -285,7 +287,7 @@ pub fn op_save<M: GseDecapMemory>(sh: &Shape) {
             kani::cover!(true, "refused");
         }
     }
-    if g.nfree <= 3 {
+    if g.nfree <= 3 && sh.s <= 2 {
         probe_capacity(&mut m, &mut g, sh.s);
     }
     drain_and_check(&mut m, &g, sh.s);
